@@ -1,5 +1,6 @@
 import Driver.Loop
 import PyGqlModel.Depth
+import PyGqlModel.DepthMerged
 import PyGqlModel.Spec.DepthSpec
 import PyGqlModel.Generated.DepthVariant
 open PyGql PyGql.Depth
@@ -108,7 +109,9 @@ def handle (j : J) : J :=
       ("rulert", .arr (grid.map fun (f, l) => resJ (ruleRT fuel l f doc (varDefsROfJson (j.getD "doc")) (rawVarsOfJson (j.getD "raw"))))),
       ("rulecur", .arr (grid.map fun (f, l) =>
         if PyGql.Generated.DepthVariant.budgeted then
-          (match ruleB l f doc (varDefsROfJson (j.getD "doc")) (rawVarsOfJson (j.getD "raw")) with
+          (match (if PyGql.Generated.DepthVariant.levelMerged
+                  then ruleM l f doc (varDefsROfJson (j.getD "doc")) (rawVarsOfJson (j.getD "raw"))
+                  else ruleB l f doc (varDefsROfJson (j.getD "doc")) (rawVarsOfJson (j.getD "raw"))) with
            | .error e => errJ e
            | .ok errs => .arr (errs.map fun p => J.ofNat p.1))
         else resJ (
